@@ -283,4 +283,47 @@ theorem indepCheck_sound {vs : List Nat} (h : indepCheck vs = true) : Independen
   | none => rw [he] at h; cases h
   | some B => exact indepRec_independent (echelon_sound he).2.2
 
+/-! ## completeness: an independent list is never rejected -/
+
+theorem xor_self_cancel (v x : Nat) : v ^^^ (x ^^^ v) = x := by grind
+
+theorem span_coeff {vs : List Nat} {x : Nat} (h : Span vs x) : ∃ cs, cs.length = vs.length ∧ xorSel cs vs = x := by
+  induction vs generalizing x with
+  | nil => exact ⟨[], rfl, by simpa [Span, xorSel] using h.symm⟩
+  | cons v vs ih =>
+    rcases h with h | h
+    · obtain ⟨cs, hl, hx⟩ := ih h
+      exact ⟨false :: cs, by simp [hl], by simp [xorSel, hx]⟩
+    · obtain ⟨cs, hl, hx⟩ := ih h
+      refine ⟨true :: cs, by simp [hl], ?_⟩
+      simp only [xorSel, ↓reduceIte, hx]
+      exact xor_self_cancel v x
+
+theorem independent_tail {v : Nat} {vs : List Nat} (h : Independent (v :: vs)) : Independent vs := by
+  intro cs hl hz c hc
+  exact h (false :: cs) (by simp [hl]) (by simp [xorSel, hz]) c (List.mem_cons_of_mem _ hc)
+
+theorem echelon_complete {vs : List Nat} (h : Independent vs) : (echelon vs).isSome = true := by
+  induction vs with
+  | nil => rfl
+  | cons v vs ih =>
+    have hi := ih (independent_tail h)
+    cases hB : echelon vs with
+    | none => rw [hB] at hi; cases hi
+    | some B =>
+      simp only [echelon, hB]
+      split
+      · next hr =>
+        exfalso
+        have hs := echelon_sound hB
+        have hred := reduce_span B v
+        rw [hr, Nat.zero_xor] at hred
+        obtain ⟨cs, hl, hx⟩ := span_coeff ((hs.2.1 v).2 hred)
+        have := h (true :: cs) (by simp [hl]) (by simp [xorSel, hx]) true (List.mem_cons_self ..)
+        cases this
+      · rfl
+
+theorem indepCheck_iff (vs : List Nat) : indepCheck vs = true ↔ Independent vs :=
+  ⟨indepCheck_sound, fun h => echelon_complete h⟩
+
 end ChythonModel.Proofs.C06
